@@ -60,6 +60,9 @@ func RunFrame(id string, f *Frame) []sim.Ev {
 				id16++
 				pk.ID = id16
 			}
+		case "dup":
+			prev := x.W.Frame[len(x.W.Frame)-1]
+			pk = &codec.Packet{T: "PUBLISH", QoS: 2, Dup: true, Topic: "t", Payload: prev.Payload, ID: prev.ID}
 		case "pong":
 			pk = &codec.Packet{T: "PINGRESP"}
 		case "suback":
